@@ -42,6 +42,10 @@ NEEDS = {
  "C20-limit-only-first-stage": ("C20", "a coder chain whose expanding stage is not the first (7zAES + LZMA2/LZMA/BZip2/PPMd) and a highly compressible member"),
  "C20-compress-reads-rest-at-once": ("C20", "creating an archive with a member larger than one read block (only memory shows it: the archive is byte-identical)"),
 }
+NOTES = {
+ "C03-commonprefix-containment": "caught (exit 1) while /repo still had the purely lexical containment; the later repair F29 adds a physical check behind the lexical one, which makes this slip harmless: at the final HEAD the agent's own demonstration passes with the change applied, so it no longer breaks the property (the final run shows the lexical obligation's counterexamples as not reproducing)",
+ "C03-link-gate-drops-parent": "caught (exit 1) while /repo still had the purely lexical link gate; the repair F29 rewrote that very line (the patch no longer applies) and backs it with a physical check",
+}
 res = {}
 for line in [l for f in LOGS for l in open(f)]:
     m = re.match(r"\[([^\]]+)\] demo with mutation: exit (\d+) ; tests: rc=(\S+) \((.*?)\) ; demo clean: exit (\d+)", line)
@@ -62,5 +66,10 @@ for name, r in res.items():
                 confirmed=r.get("confirm"), ran=["git -C <scratch worktree at /repo HEAD> apply patch.diff", "/venv/bin/python -m pytest -q -p no:cacheprovider --timeout=900   (suite still passes)",
                      "/venv/bin/python demo.py   (exit 1 with the change, exit 0 without)", "VERIF_REPO=<worktree> ./vcheck <ID> --tier quick   (same as applying the patch to /repo)"],
                 checks=r.get("checks", []), caught_by=caught, caught=bool(caught))
+    if name in NOTES:
+        meta["note"] = NOTES[name]
+    meta["checks_history_note"] = ("'checks' lists every run in order, from the first attempt to the final pass against the final "
+                                   "/repo HEAD and the final checks; exit 1 = reported as VIOLATION, 2 = found symbolically but the "
+                                   "replay did not reproduce at that time (then strengthened), 0 = missed at that time")
     json.dump(meta, open(os.path.join(d, "meta.json"), "w"), indent=1)
     print(name, "caught by", caught or "NOTHING")
